@@ -55,7 +55,7 @@ def main(ctx, cases=None):
     quick = ctx.tier == "quick"
     b = build.build("plain")
     tr_ok, classes = pl.regen(ctx, b)
-    proofs_ok = ctx.lean_props("C09") if tr_ok else False
+    proofs_ok = ctx.lean_props("C09All", extra_modules=["Ecpint.Props.C09", "Ecpint.Props.C09b"]) if tr_ok else False
     # ---- translation validation of the generated code against the generator model
     val_bad = []
     n_classes = n_terms = 0
